@@ -420,6 +420,10 @@ def explore(scn, alphabet, monitors, R=1, T=0, S=0, max_states=4000, loops=None,
             for act in acts:
                 if act[0] == 'resume' and st.resumes >= R:
                     continue
+                if act[0] == 'resume' and scn['stale_file'] and st.n_like == 0:
+                    # nothing of THIS computation has been written yet: the file at the path is still
+                    # the earlier run's, and resuming it is (rightly) a different computation
+                    continue
                 if act[0] == 'toggle' and st.toggles >= T:
                     continue
                 if act[0] == 'sched' and st.nsched >= S:
